@@ -211,6 +211,7 @@ public:
 
     bool hasSortSymbol(SortSymbol const &) const;
     bool peekSortSymbol(SortSymbol const &, SSymRef &) const;
+    unsigned int getSortSymbolArity(SSymRef ref) const { return sort_store[ref].arity; }
     SSymRef declareSortSymbol(SortSymbol symbol);
     SRef getSort(SSymRef, vec<SRef> && args);
 
